@@ -65,7 +65,11 @@ def make_prim(kind):
         return pdu.AAbortPDU(source=0, reason_diag=0)
 
 
-def run_cell(evt, sta, role, artim, kind):
+UNREAD = ('earlier indication not yet read by the user',)
+BUFFERED = b'\x04\x00\x00\x00'        # the head of a further PDU already received
+
+
+def run_cell(evt, sta, role, artim, kind, unread=False):
     sock = FakeSocket()
     if role == 'acceptor':
         prov = dulprovider.DULServiceProvider(frozenset(), None, sock)
@@ -79,6 +83,9 @@ def run_cell(evt, sta, role, artim, kind):
     prov.primitive = prim
     prov.timer._start_time = 12345.0 if artim else None
     pre_timer = prov.timer._start_time
+    prov.raw_pdu = BUFFERED
+    if unread:
+        prov.to_service_user.put(UNREAD)
     obs = {'raised': None}
     real_socket = fsm.socket.socket
     fsm.socket.socket = lambda *a, **k: sock
@@ -92,6 +99,10 @@ def run_cell(evt, sta, role, artim, kind):
     puts = []
     while not prov.to_service_user.empty():
         puts.append(prov.to_service_user.get())
+    obs['unread_kept_first'] = (puts[:1] == [UNREAD]) if unread else True
+    if unread and puts[:1] == [UNREAD]:
+        puts = puts[1:]
+    obs['buffer_untouched'] = prov.raw_pdu == BUFFERED
     obs.update({
         'sent_types': [s[0] if s else None for s in sends],
         'sent_hex': [s.hex()[:40] for s in sends],
@@ -117,6 +128,11 @@ def expected(evt, sta, role):
 def violated(evt, sta, role, kind, obs, prim, sends, puts):
     bad = []
     cell = T.CELLS.get((evt, sta))
+    if not obs['raised'] or cell is None:
+        if not obs['buffer_untouched']:
+            bad.append('frame:receive-buffer-untouched')
+        if not obs['unread_kept_first']:
+            bad.append('frame:unread-indications-kept-in-order')
     if cell is None:
         if sends:
             bad.append('undefined:wire')
@@ -130,7 +146,7 @@ def violated(evt, sta, role, kind, obs, prim, sends, puts):
     action, nxt = cell
     spec = T.ACTIONS[action]
     if obs['raised']:
-        return ['noexc']
+        return bad + ['noexc']
     w = spec.get('wire')
     if w is not None and w[0] == 'abort-from-user-or-any':
         w = ('primitive', (T.ABORT,)) if evt == 15 else ('any', T.ABORT)
@@ -199,17 +215,23 @@ def main():
                         k = T.EVENT_PRIMITIVE[evt]
                         kinds = [k] if k else ([T.RQ] if evt == 2 else [None] + list(T.PDU_KINDS))
                         for kind in kinds:
-                            n += 1
-                            obs, prim, sends, puts = run_cell(evt, sta, role, artim, kind)
-                            bad = violated(evt, sta, role, kind, obs, prim, sends, puts)
-                            if bad:
-                                fails.append({'evt': evt, 'sta': sta, 'role': role, 'artim': artim,
-                                              'prim': kind, 'violated': bad})
+                            for unread in (False, True):
+                                n += 1
+                                obs, prim, sends, puts = run_cell(evt, sta, role, artim, kind, unread)
+                                bad = violated(evt, sta, role, kind, obs, prim, sends, puts)
+                                if bad:
+                                    fails.append({'evt': evt, 'sta': sta, 'role': role, 'artim': artim,
+                                                  'prim': kind, 'unread_indication': unread, 'violated': bad})
         print(json.dumps({'reproduced': bool(fails), 'failures': fails[:400], 'n_failures': len(fails),
                           'evaluations': n}))
         return
-    obs, prim, sends, puts = run_cell(req['evt'], req['sta'], req['role'], req['artim'], req['prim'])
-    bad = violated(req['evt'], req['sta'], req['role'], req['prim'], obs, prim, sends, puts)
+    bad, obs = [], None
+    for unread in (False, True):
+        obs, prim, sends, puts = run_cell(req['evt'], req['sta'], req['role'], req['artim'], req['prim'], unread)
+        obs['unread_indication'] = unread
+        bad = violated(req['evt'], req['sta'], req['role'], req['prim'], obs, prim, sends, puts)
+        if bad:
+            break
     print(json.dumps({'reproduced': req.get('channel') in bad or (bool(bad) and req.get('channel') is None),
                       'violated_channels': bad, 'observed': obs,
                       'expected': expected(req['evt'], req['sta'], req['role'])}, default=str))
